@@ -159,8 +159,22 @@ def inject(run, stub, f):
     yield  # pragma: no cover
 
 
-MOSAIK_CORO_PREFIXES = ("sim_process", "Progress.", "Event.wait", "RemoteProxy.", "run", "SimRunner.",
-                        "LocalProxy.", "World.", "wait_for", "_wait")
+def _task_kind(task):
+    """'connection' if the task belongs to the handling of a remote connection (its coroutine is a
+    method of a RemoteProxy or Channel), else 'scheduler'.  Structural, so that renaming a
+    coroutine does not change the classification."""
+    try:
+        from mosaik.proxies import RemoteProxy
+    except Exception:  # noqa: BLE001
+        RemoteProxy = ()
+    from mosaik_api_v3.connection import Channel
+    co = task.get_coro()
+    fr = getattr(co, "cr_frame", None) or getattr(co, "gi_frame", None)
+    # the task *is* a method of the proxy/channel (request handler, stream reader); a simulator
+    # process that merely waits inside a remote request is a scheduler task
+    if fr is not None and isinstance(fr.f_locals.get("self"), (RemoteProxy, Channel)):
+        return "connection"
+    return "scheduler"
 
 
 def pending_mosaik_tasks(run):
@@ -173,11 +187,11 @@ def pending_mosaik_tasks(run):
         co = t.get_coro()
         qn = getattr(co, "__qualname__", type(co).__name__)
         fr = getattr(co, "cr_frame", None)
-        if qn.startswith("Channel.") and fr is not None and id(fr.f_locals.get("self")) in sim_side:
+        if fr is not None and id(fr.f_locals.get("self")) in sim_side:
             continue      # the simulator side's own reader task
         if qn.startswith(("get_wrapper", "run_simulator", "remote_main")):
             continue
-        out.append(qn)
+        out.append((qn, _task_kind(t)))
     return sorted(out)
 
 
@@ -215,9 +229,10 @@ def shutdown_verdicts(x, prop, exempt):
         add("loop-not-closed", "world.loop is not closed after run()")
     pend = pending_mosaik_tasks(run)
     if pend:
-        add("pending-tasks-at-close", f"tasks still pending when the loop was closed: {pend[:6]}",
+        add("pending-tasks-at-close",
+            f"tasks still pending when the loop was closed: {[p[0] for p in pend][:6]}",
             cls="siblings-keep-running-after-failure"
-            if all(p.startswith(("sim_process", "Progress.", "Event.wait")) for p in pend) else None)
+            if all(kind == "scheduler" for _, kind in pend) else None)
     for (sim, (r_m, w_m), (r_s, w_s), ch_m) in run.channels:
         if not (w_m.closed or r_m._eof):
             add("channel-left-open", f"connection to {sim.sid} neither closed nor at EOF")
